@@ -1626,6 +1626,11 @@ pub(crate) mod verif_local {
         }
     }
 
+    /// `a.same_visibility(b)`
+    pub(crate) fn same_visibility(a: &UseTree, b: &UseTree) -> bool {
+        a.same_visibility(b)
+    }
+
     /// `UseTree::flatten`
     pub(crate) fn flatten(tree: UseTree, granularity: ImportGranularity) -> Vec<UseTree> {
         tree.flatten(granularity)
